@@ -296,7 +296,7 @@ func runShard(o hx.Opts, scens []Scenario, hangMs int) []result {
 }
 
 var svcCode = map[string]int{}
-var streamCode = map[string]int{"dialogue": 1, "truncated": 2, "mutated": 3, "raw": 4, "ssh": 6, "tftp-load": 8, "ber": 9, "ber-fuzz": 9, "size": 10, "ftp-abandon": 11, "ftp-abandon-timeout": 11, "conc": 12}
+var streamCode = map[string]int{"dialogue": 1, "truncated": 2, "mutated": 3, "raw": 4, "ssh": 6, "tftp-load": 8, "ber": 9, "ber-fuzz": 9, "size": 10, "ftp-abandon": 11, "ftp-abandon-timeout": 11, "conc": 12, "decl": 13, "keys": 14}
 var sshTypeCode = map[string]int{"env": 1, "exec": 2, "shell": 3, "pty-req": 4, "subsystem": 5, "tcpip-forward": 6}
 var sshChanCode = map[string]int{"": 0, "session": 0, "direct-tcpip": 1, "forwarded-tcpip": 2}
 
@@ -444,6 +444,17 @@ func main() {
 		// concurrency for every service (one child per service: shared state is per instance)
 		for _, sc := range concScenarios(r, o.Tier != "quick") {
 			shards = append(shards, []Scenario{sc})
+		}
+		// declared sizes of the text protocols; key-sequence prefixes for the line editors
+		for _, fam := range [][]Scenario{declScenarios(), keyScenarios()} {
+			for len(fam) > 0 {
+				n := 60
+				if n > len(fam) {
+					n = len(fam)
+				}
+				shards = append(shards, fam[:n])
+				fam = fam[n:]
+			}
 		}
 		bers := append(berScenarios(), snmpScenarios(o.Tier != "quick")...)
 		if o.Tier != "quick" {
